@@ -42,6 +42,51 @@ pub fn label_table(text: &str) -> LabelTable {
     LabelTable { defined, duplicates }
 }
 
+/// Fallback when the text contains an instruction form the emulator's parser does not know (a new
+/// form is not a defect: the assembler decides about it): label references are read off the text
+/// — operands of jumps, branches, calls and address computations that are not registers or numbers.
+fn textual_label_problem(isa: &str, text: &str, defined: &HashSet<&str>) -> Option<(String, String)> {
+    let is_reg_or_num = |t: &str| {
+        let t = t.trim();
+        t.is_empty()
+            || t.parse::<i64>().is_ok()
+            || t.starts_with('[')
+            || ["rax", "rcx", "rdx", "rbx", "rsp", "rbp", "rsi", "rdi"].contains(&t)
+            || (t.len() <= 3 && (t.starts_with('r') || t.starts_with('X') || t.starts_with('x') || t.starts_with('W')) && t[1..].chars().all(|c| c.is_ascii_digit()))
+            || ["SP", "LR", "XZR", "zero", "ra", "sp"].contains(&t)
+    };
+    for (ln, raw) in text.lines().enumerate() {
+        let t = raw.trim();
+        if t.is_empty() || t.starts_with(';') || t.starts_with("//") || t.starts_with('#') || t.ends_with(':') || t.starts_with('.') || t.starts_with("section") || t.starts_with("global") || t.starts_with("extern") {
+            continue;
+        }
+        let (mn, rest) = t.split_once(char::is_whitespace).unwrap_or((t, ""));
+        let mnl = mn.to_ascii_lowercase();
+        let mut refs: Vec<String> = Vec::new();
+        if let Some(i) = rest.find("[rel ") {
+            if let Some(j) = rest[i..].find(']') {
+                refs.push(rest[i + 5..i + j].trim().to_string());
+            }
+        }
+        // operands are separated by commas (x86-64, AArch64) or blanks (the RISC-V printer); `near` is a size hint
+        let last = rest.split(|c: char| c == ',' || c.is_whitespace()).filter(|x| !x.is_empty()).last().unwrap_or("").trim();
+        let is_branch = match isa {
+            "x86_64" => (mnl.starts_with('j') || mnl == "call") && !rest.contains(','),
+            "aarch64" => mnl == "b" || mnl == "bl" || mnl.starts_with("b.") || mnl == "cbz" || mnl == "cbnz" || mnl == "adr",
+            _ => ["j", "jal", "la", "beq", "bne", "blt", "bge", "bltu", "bgeu", "bgt", "ble", "beqz", "bnez"].contains(&mnl.as_str()),
+        };
+        if is_branch && !is_reg_or_num(last) {
+            refs.push(last.to_string());
+        }
+        for l in refs {
+            if !defined.contains(l.as_str()) && !["print_i64", "println_i64"].contains(&l.as_str()) {
+                return Some(("undefined-label".into(), format!("{isa} line {}: reference to undefined label {l}", ln + 1)));
+            }
+        }
+    }
+    None
+}
+
 /// static well-formedness of one backend's text; returns (signature class, message) of the first problem
 pub fn asmcheck(isa: &str, text: &str, acc: &mut Acc) -> Option<(String, String)> {
     let lt = label_table(text);
@@ -52,11 +97,18 @@ pub fn asmcheck(isa: &str, text: &str, acc: &mut Acc) -> Option<(String, String)
     }
     let defined: HashSet<&str> = lt.defined.iter().map(|s| s.as_str()).collect();
     let undefined = |l: &str| -> bool { !defined.contains(l) };
+    if std::env::var("C14_FORCE_TEXTUAL").is_ok() {
+        // testing aid: judge every file with the fallback only
+        return textual_label_problem(isa, text, &defined);
+    }
     match isa {
         "x86_64" => {
             let p = match emu::x86::parse(text) {
                 Ok(p) => p,
-                Err(e) => return Some(("unknown-form".into(), format!("x86_64: {e}"))),
+                Err(_) => {
+                    acc.count("static_monitor_fallback_unknown_instruction_form");
+                    return textual_label_problem(isa, text, &defined);
+                }
             };
             acc.add("instructions_range_checked", p.ins.len() as u64);
             for (i, ins) in p.ins.iter().enumerate() {
@@ -83,7 +135,10 @@ pub fn asmcheck(isa: &str, text: &str, acc: &mut Acc) -> Option<(String, String)
         "aarch64" => {
             let p = match emu::a64::parse(text) {
                 Ok(p) => p,
-                Err(e) => return Some(("unknown-form".into(), format!("aarch64: {e}"))),
+                Err(_) => {
+                    acc.count("static_monitor_fallback_unknown_instruction_form");
+                    return textual_label_problem(isa, text, &defined);
+                }
             };
             acc.add("instructions_range_checked", p.ins.len() as u64);
             for (i, ins) in p.ins.iter().enumerate() {
@@ -104,7 +159,10 @@ pub fn asmcheck(isa: &str, text: &str, acc: &mut Acc) -> Option<(String, String)
         _ => {
             let p = match emu::rv::parse(text) {
                 Ok(p) => p,
-                Err(e) => return Some(("unknown-form".into(), format!("rv64: {e}"))),
+                Err(_) => {
+                    acc.count("static_monitor_fallback_unknown_instruction_form");
+                    return textual_label_problem(isa, text, &defined);
+                }
             };
             acc.add("instructions_range_checked", p.ins.len() as u64);
             let fits12 = |v: i64| (-2048..=2047).contains(&v);
